@@ -66,8 +66,22 @@ static std::string on_die_cb(int endkind, const std::string &detail) {
     case sim::END_ABORT: {
         bool storage = o.stderr_text.find("exceeded; Current column") != std::string::npos;
         bool fault = op && has_fault(*op);
-        if (storage) o.probes["abort_storage_exceeded"]++;
-        else if (fault) {
+        if (storage) {
+            o.probes["abort_storage_exceeded"]++;
+            // the diagnostic is justified only if the need it names exceeds the estimate the run was configured with (sp_ienv(7) for U,
+            // sp_ienv(8) for L's subscripts: a positive count, or minus a multiple of nnz(A)); with a caller workspace the initial allocation
+            // may have halved the estimates, so nothing is asserted there
+            long need = -1; int param = 0;
+            size_t a = o.stderr_text.find("Need at least "), b = o.stderr_text.find("set it by the ");
+            if (a != std::string::npos) need = atol(o.stderr_text.c_str() + a + 14);
+            if (b != std::string::npos) param = atoi(o.stderr_text.c_str() + b + 14);
+            bool user_ws = false; if (g_case) for (auto &q : g_case->ops) if (q.x.lwork > 0) user_ws = true;
+            if (op && g_case && need >= 0 && (param == 7 || param == 8) && !user_ws) {
+                long cap = op->ienv[param] < 0 ? -op->ienv[param] * (long)g_case->M.nnz() : op->ienv[param];
+                if (need <= cap) add_viol(o, prim, "storage_exceeded_diagnostic_within_estimate", fmt("the library stopped with 'storage exceeded' for sp_ienv(%d): need %ld, configured estimate %ld", param, need, cap), g_op);
+                else o.probes["abort_storage_exceeded_justified"]++;
+            }
+        } else if (fault) {
             o.probes["abort_under_fault"]++;
             if (o.stderr_text.find_first_not_of(" \n\t") == std::string::npos) add_viol(o, "C14", "abort_without_diagnostic", detail, g_op);
         } else add_viol(o, prim, "unexpected_abort", detail + " stderr=" + o.stderr_text, g_op);
